@@ -632,6 +632,15 @@ theorem failure_is_noop (s : St) (o : Op) (h : (step s o).2 ≠ Res.ok) : (step 
     split
     · rfl
     · rename_i hv; simp only [hv] at h; exact commit_fail _ _ h
+  | restart => rfl
+  | dry o => rfl
+
+/-- **restart is the identity** on the state the property talks about (tied to the code by the `restart` op of the
+    harness: ExportGenesis → JSON → Validate → emptied module store → InitGenesis, dumps compared) -/
+theorem restart_identity (s : St) : step s .restart = (s, Res.ok) := rfl
+
+/-- **a dropped execution is the identity** whatever the operation -/
+theorem dry_identity (s : St) (o : Op) : step s (.dry o) = (s, Res.ok) := rfl
 
 /-- the accepted operations of a history -/
 def accepted (s : St) : List Op → List Op
@@ -811,6 +820,217 @@ example : get (run init [.prop { kind := .create, name := "abc", cs := some exTs
 example : validateContent { kind := .toggle, name := "chain-b", cs := some (exTm 5), ks := some { exK .tm 90 with vb := false } } = false
         ∧ (govExec (run init exHist).1 { kind := .toggle, name := "chain-b", cs := some (exTm 5), ks := some { exK .tm 90 with vb := false } }).2 = .err := by decide
 end Examples
+
+/-! ### frame: an operation about one client leaves every other client's store byte-identical -/
+
+theorem get_set_other (s : St) (n n' : Name) (k k' : Key) (v : Val) (hn : n' ≠ n) :
+    get (set s n k v) n' k' = get s n' k' := by
+  have : ¬ ((n, k) = (n', k')) := by intro h; exact hn (by injection h with h1 _; exact h1.symm)
+  simp [this]
+
+theorem get_del_other (s : St) (n n' : Name) (k k' : Key) (hn : n' ≠ n) :
+    get (del s n k) n' k' = get s n' k' := by
+  have : ¬ ((n', k') = (n, k)) := by intro h; exact hn (by injection h with h1 _)
+  simp [this]
+
+theorem get_clearName_other (s : St) (n n' : Name) (k' : Key) (hn : n' ≠ n) :
+    get (clearName s n) n' k' = get s n' k' := by simp [hn]
+
+theorem get_delSigners_other (s : St) (n n' : Name) (k' : Key) (hn : n' ≠ n) :
+    get (delSigners s n) n' k' = get s n' k' := by simp [hn]
+
+theorem applyDelta_other (n n' : Name) (k' : Key) (hn : n' ≠ n) :
+    ∀ (d : List (Key × Option Val)) (s : St), get (applyDelta s n d) n' k' = get s n' k' := by
+  intro d
+  induction d with
+  | nil => intro s; rfl
+  | cons e r ih =>
+    intro s
+    obtain ⟨k, v⟩ := e
+    cases v with
+    | none => simp only [applyDelta]; rw [ih, get_del_other _ _ _ _ _ hn]
+    | some v => simp only [applyDelta]; rw [ih, get_set_other _ _ _ _ _ _ hn]
+
+theorem bscPrune_other {s s1 : St} {n : Name} {c : CState} (h : bscPrune s n c = .ok s1) (n' : Name) (k' : Key)
+    (hn : n' ≠ n) : get s1 n' k' = get s n' k' := by
+  unfold bscPrune at h
+  split at h
+  · injection h with h; subst h; rfl
+  · split at h
+    · split at h
+      · simp at h
+      · split at h <;> (injection h with h; subst h)
+        · exact get_del_other _ _ _ _ _ hn
+        · rfl
+    · simp at h
+
+theorem upgradeState_other {s s1 : St} {n : Name} {c : CState} {k : KState} (h : upgradeState s n c k = .ok s1)
+    (n' : Name) (k' : Key) (hn : n' ≠ n) : get s1 n' k' = get s n' k' := by
+  unfold upgradeState at h
+  cases hc : c.ty <;> simp only [hc] at h
+  · split at h
+    · simp at h
+    · injection h with h; subst h; exact writeMeta_other _ _ _ _ _ hn
+  · split at h
+    · simp at h
+    · split at h
+      · simp at h
+      · cases hp : bscPrune s n c with
+        | err e => simp [hp] at h
+        | panic e => simp [hp] at h
+        | ok s0 =>
+          simp only [hp] at h; injection h with h; subst h
+          rw [writeMeta_other _ _ _ _ _ hn, get_delSigners_other _ _ _ _ hn]
+          exact bscPrune_other hp n' k' hn
+  · split at h
+    · simp at h
+    · injection h with h; subst h; exact writeMeta_other _ _ _ _ _ hn
+  · injection h with h; subst h; rfl
+
+theorem handle_other {s s' : St} {p : Proposal} (h : handle s p = .ok s') (n' : Name) (k' : Key)
+    (hn : n' ≠ p.name) : get s' n' k' = get s n' k' := by
+  unfold handle at h
+  cases hk : p.kind <;> simp only [hk] at h
+  · -- create
+    split at h
+    · simp at h
+    · split at h
+      · simp at h
+      · cases hc : p.cs with
+        | none => simp [hc] at h
+        | some c =>
+          cases hks : p.ks with
+          | none => simp [hc, hks] at h
+          | some k =>
+            simp only [hc, hks, createClient] at h
+            cases hi : initClient (set s p.name .cs (.cstate c)) p.name c k with
+            | err e => simp [hi] at h
+            | panic e => simp [hi] at h
+            | ok s2 =>
+              obtain ⟨h2, _⟩ := initClient_ok hi
+              simp only [hi] at h
+              split at h <;> (injection h with h; subst h)
+              · rw [get_set_other _ _ _ _ _ _ hn, h2, writeMeta_other _ _ _ _ _ hn, get_set_other _ _ _ _ _ _ hn]
+              · rw [h2, writeMeta_other _ _ _ _ _ hn, get_set_other _ _ _ _ _ _ hn]
+  · -- upgrade
+    cases hc : p.cs with
+    | none => simp [hc] at h
+    | some c =>
+      cases hks : p.ks with
+      | none => simp [hc, hks] at h
+      | some k =>
+        simp only [hc, hks, upgradeClient] at h
+        cases ho : getClient s p.name with
+        | none => simp [ho] at h
+        | some old =>
+          simp only [ho] at h
+          split at h
+          · simp at h
+          · cases hu : upgradeState s p.name c k with
+            | err e => simp [hu] at h
+            | panic e => simp [hu] at h
+            | ok s1 =>
+              simp only [hu] at h
+              split at h <;> (injection h with h; subst h)
+              · rw [get_set_other _ _ _ _ _ _ hn, get_set_other _ _ _ _ _ _ hn]; exact upgradeState_other hu n' k' hn
+              · rw [get_set_other _ _ _ _ _ _ hn]; exact upgradeState_other hu n' k' hn
+  · -- toggle
+    split at h
+    · simp at h
+    · cases hc : p.cs with
+      | none => simp [hc] at h
+      | some c =>
+        cases hks : p.ks with
+        | none => simp [hc, hks] at h
+        | some k =>
+          simp only [hc, hks, toggleClient] at h
+          cases ho : getClient s p.name with
+          | none => simp [ho] at h
+          | some old =>
+            simp only [ho] at h
+            split at h
+            · simp at h
+            · cases hi : initClient (set (clearName s p.name) p.name .cs (.cstate c)) p.name c k with
+              | err e => simp [hi] at h
+              | panic e => simp [hi] at h
+              | ok s2 =>
+                obtain ⟨h2, _⟩ := initClient_ok hi
+                simp only [hi] at h
+                split at h <;> (injection h with h; subst h)
+                · rw [get_set_other _ _ _ _ _ _ hn, h2, writeMeta_other _ _ _ _ _ hn, get_set_other _ _ _ _ _ _ hn,
+                    get_clearName_other _ _ _ _ hn]
+                · rw [h2, writeMeta_other _ _ _ _ _ hn, get_set_other _ _ _ _ _ _ hn, get_clearName_other _ _ _ _ hn]
+
+theorem handleUpdate_other {s s' : St} {u : Update} (h : handleUpdate s u = .ok s') (n' : Name) (k' : Key)
+    (hne : n' ≠ u.name) : get s' n' k' = get s n' k' := by
+  unfold handleUpdate at h
+  split at h
+  · simp at h
+  · cases hc : getClient s u.name with
+    | none => simp [hc] at h
+    | some c =>
+      simp only [hc] at h
+      split at h
+      · simp at h
+      · unfold updateClient at h
+        split at h
+        · simp at h
+        · split at h
+          · simp at h
+          · cases hh : u.hdr.height with
+            | none => simp [hh] at h
+            | some hgt =>
+              simp only [hh] at h
+              cases hk : u.newK with
+              | none =>
+                simp only [hk] at h; injection h with h; subst h
+                rw [get_set_other _ _ _ _ _ _ hne]; exact applyDelta_other _ _ _ hne _ _
+              | some k =>
+                simp only [hk] at h; injection h with h; subst h
+                rw [get_set_other _ _ _ _ _ _ hne, get_set_other _ _ _ _ _ _ hne]; exact applyDelta_other _ _ _ hne _ _
+
+theorem commit_other {s s' : St} {o : Outcome St} {r : Res} (h : commit s o = (s', r)) :
+    s' = s ∨ o = .ok s' := by
+  cases o <;> simp_all [commit]
+
+/-- **frame** — an operation about client `n` (a proposal, an update, whether it succeeds or not) leaves the client
+    store of every other name exactly as it was: state, consensus states, auxiliary records. Operations without a
+    target (time, relayer registration, restart, dropped executions) leave every client store as it was. -/
+theorem step_frame (s : St) (o : Op) (n' : Name) (k' : Key) (hn : ∀ n, target o = some n → n' ≠ n) :
+    get (step s o).1 n' k' = get s n' k' := by
+  cases o with
+  | time ns => rfl
+  | relayer p =>
+    simp only [step, relayerExec]; split <;> rfl
+  | restart => rfl
+  | dry o => rfl
+  | prop p =>
+    have hne : n' ≠ p.name := hn p.name rfl
+    simp only [step, govExec]
+    split
+    · rfl
+    · rcases commit_other (s := s) (o := handle s p) (s' := (commit s (handle s p)).1) (r := (commit s (handle s p)).2) rfl with h | h
+      · rw [h]
+      · exact handle_other h n' k' hne
+  | update u =>
+    have hne : n' ≠ u.name := hn u.name rfl
+    simp only [step, txExec]
+    split
+    · rfl
+    · rcases commit_other (s := s) (o := handleUpdate s u) (s' := (commit s (handleUpdate s u)).1) (r := (commit s (handleUpdate s u)).2) rfl with h | h
+      · rw [h]
+      · exact handleUpdate_other h n' k' hne
+
+/-- over histories: a client none of whose operations is in the history keeps its whole store, whatever happens to the
+    other clients (several clients of every type side by side) -/
+theorem run_frame (n' : Name) (k' : Key) (ops : List Op) (hn : ∀ o ∈ ops, ∀ n, target o = some n → n' ≠ n) :
+    ∀ s : St, get (run s ops).1 n' k' = get s n' k' := by
+  induction ops with
+  | nil => intro s; rfl
+  | cons o r ih =>
+    intro s
+    rw [run_fst_cons, ih (fun o' ho' => hn o' (List.mem_cons_of_mem _ ho'))]
+    exact step_frame s o n' k' (hn o List.mem_cons_self)
 
 /-! ### an invalid proposal changes nothing (stated over the composition: submission stage, then handler) -/
 
